@@ -280,6 +280,30 @@ func runQuietFleet(q quietFleet, env *runner.Env, res *runner.Result) {
 		res.NonTrivial = true
 		return
 	}
+	if !q.DupSort && len(insts) >= 2 {
+		// the whole fleet is idle: two applications write the SAME value for one key (and both delete another key)
+		// before either has seen the other's snapshot. The later-stamped version then only changes a timestamp (or a
+		// marker) on the other side: a merge that writes, but brings nothing to publish.
+		for _, x := range insts[:2] {
+			loopp.AppPut(x, s, "shared", "same-value-everywhere")
+		}
+		for _, x := range insts[:2] {
+			s.Note(x.Name, "APP BEGIN delete k1")
+			_, _ = lmdbx.Update(x.Env, func(txn *lmdb.Txn) error {
+				if q.Native {
+					return inst.NativePut(txn, "d", []byte("k1"), uint64(time.Now().UnixNano()), true, nil)
+				}
+				return lmdbx.Del(txn, "d", []byte("k1"))
+			})
+			s.Note(x.Name, "APP COMMIT delete k1")
+		}
+		res.Count("same_value_written_on_two_instances", 1)
+		for round := 0; round < 3; round++ {
+			for _, l := range loops {
+				l.WaitQuiescent(nil, 5, wd)
+			}
+		}
+	}
 	if !q.DupSort {
 		// the whole fleet is idle: one application creates an empty DBI. Its instance uploads once; everybody else
 		// creates the DBI while merging that snapshot and must stay silent.
@@ -327,8 +351,8 @@ func runQuietFleet(q quietFleet, env *runner.Env, res *runner.Result) {
 				after++
 			}
 		}
-		if after > 3 {
-			res.Violate("uploads-after-writers-stopped", fmt.Sprintf("instance %s uploaded %d snapshots after the writers stopped (at most 3 are explained)", x.Name, after), wit)
+		if after > 6 {
+			res.Violate("uploads-after-writers-stopped", fmt.Sprintf("instance %s uploaded %d snapshots after the writers stopped (at most 6 are explained)", x.Name, after), wit)
 		}
 		res.Add("uploads_after_stop_per_instance", fmt.Sprint(after))
 		loopp.CheckCausalityOf(evs, x.Name, res, wit)
